@@ -120,6 +120,14 @@ CLAIMED["C07"] = dict(
          "(ii) every message emitted on requests and on driver-side operations must re-parse through the tree wire to an equal view.",
     note="Trusted: tree wire (C03); numbers from a value list (rendering is C10). State and addressing are varied in separate condition families.",
     ref="DESIGN.md section 6 C07", technique=XH)
+CLAIMED["C12"] = dict(
+    text="Direct-router variant: hostile-but-well-formed new*Vector messages with symbolic addressing (device x property x element incl. unknown, "
+         "empty, other-kind) and values (symbolic text, pools of valid/invalid number, base64 and size spellings, 0..2 children incl. duplicates) "
+         "against a 6-vector driver: nothing may escape, only validly named elements with valid values may change, a following request is answered. "
+         "Transport variant: 14 catalogue entries at symbolic positions of a session on the real TCP and TTY handlers (model loop, real framing, real "
+         "expat): the connection stays registered and open and keeps being served.",
+    note="Trusted: VLoop, fake streams; numbers/base64 from pools (C-level conversions); partly applicable messages may be applied or ignored.",
+    ref="DESIGN.md section 6 C12", technique=XHV)
 NA_DEFAULT = "check not built yet in this round (no verdict claimed); see DESIGN.md section 6 for the plan"
 
 checks, na = [], []
